@@ -388,6 +388,7 @@ type RunResult struct {
 	Findings []Replay
 	Samples  []string
 	Crashes  int
+	RaceCases int
 }
 
 // nthScenario regenerates scenario idx of a tier.
